@@ -161,7 +161,7 @@ class Builder:
         index, storage = os.path.join(root, 'index'), os.path.join(root, 'storage')
         for p in (index, storage):
             if not os.path.exists(os.path.join(p, 'config.yml')):
-                os.makedirs(p, exist_ok=True)
+                os.makedirs(root, exist_ok=True)
                 init_storage(StorageConfig(hash='sha256', levels=[1, 31]), p)
         return self.c.CacheColumns(index, HashKeyStorage(DiskDict(storage)),
                                    ChainSerializer(JsonSerializer(), PickleSerializer()), d['names'],
